@@ -265,13 +265,19 @@ func (p *C13) Check(sc *scen.Scenario, run *orch.Run, env *orch.Env) []orch.Viol
 				return
 			}
 		}
-		failed := false
+		failed, mayFail := false, false
 		faulty := false
 		perW := map[int][]scen.Event{}
 		for _, e := range rec {
 			perW[e.W] = append(perW[e.W], e)
 			if e.Err != "" {
 				failed = true
+			}
+			if e.F == "short" {
+				// n < len(p) with a nil error: the destination broke the io.Writer contract; logg may
+				// or may not count that as a failed Write (the statement does not say), so a
+				// diagnostic is allowed here, never required
+				mayFail = true
 			}
 			if e.F != "" {
 				faulty = true
@@ -324,8 +330,8 @@ func (p *C13) Check(sc *scen.Scenario, run *orch.Run, env *orch.Env) []orch.Viol
 			perD[e.W]++
 		}
 		switch {
-		case len(diag) > 0 && !failed:
-			add("C13.diagnostic", mode+" without-failure", "%s %s: no write failed (short writes without error are not failures) but %d further writes happened: %.160q", op.Entry, op.Tok, len(diag), diag[0].P)
+		case len(diag) > 0 && !failed && !mayFail:
+			add("C13.diagnostic", mode+" without-failure", "%s %s: no write failed but %d further writes happened: %.160q", op.Entry, op.Tok, len(diag), diag[0].P)
 		case len(diag) > 0 && op.Lvl == model.Warn:
 			add("C13.diagnostic", mode+" on-warning", "the failing record was itself a warning, yet %d further writes happened", len(diag))
 		case len(diag) > 0 && !warnAdmitted:
